@@ -117,7 +117,7 @@ func c08laws(c *mon.Ctx, rng *rand.Rand, base *Pool) {
 	if rng.Intn(5) == 0 {
 		sq, kq = ref.Neg(sp), "neg-of-P"
 	}
-	rp, rq := rng.Intn(6), rng.Intn(6)
+	rp, rq := rng.Intn(NumRepKinds), rng.Intn(NumRepKinds)
 	norm := ElemFromRef(sp, nil, false)
 	P := Rerepresent(&norm, rp, rng)
 	normq := ElemFromRef(sq, nil, false)
